@@ -119,6 +119,20 @@ static void blk_points(void) {
 		vh_sample("{\"block\":\"sm2-point-containers\",\"value\":\"%s\",\"xy\":\"%s\",\"on_curve\":%d}", VNAME[vi], vh_hex(VAL[vi], 64), VVALID[vi]);
 	}
 }
+/* the peer's key-agreement share inside TLS messages with every LENGTH and PREFIX of the octet string (the readers above only saw 65-octet fields):
+   TLS 1.3 client key_share list (the SM2 entry alone, after another group's entry, twice), TLS 1.3 server key_share, TLS 1.2 ECDHE ServerKeyExchange and
+   ClientKeyExchange. Whatever is accepted must be a finite point on the curve. */
+static void blk_tls_share_lengths(void) {
+	if (!vh_block_begin("tls-share-lengths")) return; static const size_t LL[] = { 0, 1, 2, 32, 33, 64, 65, 66, 97 }; static const uint8_t PF[] = { 0x00, 0x01, 0x02, 0x03, 0x04, 0x05, 0x06, 0x07 }; SM2_KEY sk; sm2_z256_t d; sm2_z256_from_bytes(d, GOODD); sm2_key_set_private_key(&sk, d);
+	for (int li = 0; li < 9; li++) for (int pi = 0; pi < 8; pi++) for (int fill = 0; fill < 3; fill++) { if (!vh_next()) continue; size_t L = LL[li]; uint8_t key[100]; memset(key, 0, sizeof key); if (fill == 1) { memcpy(key + 1, GOOD, L > 1 ? (L - 1 > 64 ? 64 : L - 1) : 0); } else if (fill == 2) memset(key, 0xff, sizeof key); if (L) key[0] = PF[pi]; char nm[64]; snprintf(nm, sizeof nm, "len=%zu:prefix=%02x:%s", L, PF[pi], fill == 0 ? "zeros" : fill == 1 ? "good-xy" : "ff");
+		for (int shape = 0; shape < 6; shape++) { uint8_t m[400]; size_t n = 0; SM2_Z256_POINT Q; memset(&Q, 0xEE, sizeof Q); int r = -9; const char *where = "";
+			if (shape <= 2) { /* client key_share: list */ size_t lp = n; n += 2; if (shape == 1) { m[n++] = 0; m[n++] = 23; m[n++] = 0; m[n++] = 65; m[n++] = 4; memset(m + n, 0x11, 64); n += 64; } int reps = shape == 2 ? 2 : 1; for (int rr = 0; rr < reps; rr++) { m[n++] = 0; m[n++] = TLS_curve_sm2p256v1; m[n++] = (uint8_t)(L >> 8); m[n++] = (uint8_t)L; memcpy(m + n, key, L); n += L; } m[lp] = (uint8_t)((n - lp - 2) >> 8); m[lp + 1] = (uint8_t)(n - lp - 2); uint8_t ob[300], *op = ob; size_t ol = 0; uint8_t *hb = (uint8_t *)malloc(n ? n : 1); memcpy(hb, m, n); r = tls13_process_client_key_share(hb, n, &sk, &Q, &op, &ol); free(hb); where = shape == 0 ? "tls13-client-key-share" : shape == 1 ? "tls13-client-key-share-after-another-group" : "tls13-client-key-share-twice"; }
+			else if (shape == 3) { m[n++] = 0; m[n++] = TLS_curve_sm2p256v1; m[n++] = (uint8_t)(L >> 8); m[n++] = (uint8_t)L; memcpy(m + n, key, L); n += L; uint8_t *hb = (uint8_t *)malloc(n); memcpy(hb, m, n); r = tls13_process_server_key_share(hb, n, &Q); free(hb); where = "tls13-server-key-share"; }
+			else if (shape == 4 && L < 256) { static uint8_t rec[600]; size_t hl = 1 + 2 + 1 + L + 2 + 2 + 70; rec[0] = 22; rec[1] = 3; rec[2] = 3; rec[3] = (uint8_t)((hl + 4) >> 8); rec[4] = (uint8_t)(hl + 4); rec[5] = 12; rec[6] = 0; rec[7] = (uint8_t)(hl >> 8); rec[8] = (uint8_t)hl; n = 9; rec[n++] = 3; rec[n++] = 0; rec[n++] = TLS_curve_sm2p256v1; rec[n++] = (uint8_t)L; memcpy(rec + n, key, L); n += L; rec[n++] = 7; rec[n++] = 8; rec[n++] = 0; rec[n++] = 70; memset(rec + n, 0x30, 70); n += 70; int curve; const uint8_t *sg; size_t sgl; uint8_t *hb = (uint8_t *)malloc(n); memcpy(hb, rec, n); r = tls_record_get_handshake_server_key_exchange_ecdhe(hb, &curve, &Q, &sg, &sgl); free(hb); where = "tls12-server-key-exchange"; }
+			else if (shape == 5 && L < 256) { static uint8_t rec[400]; size_t hl = 1 + L; rec[0] = 22; rec[1] = 3; rec[2] = 3; rec[3] = (uint8_t)((hl + 4) >> 8); rec[4] = (uint8_t)(hl + 4); rec[5] = 16; rec[6] = 0; rec[7] = (uint8_t)(hl >> 8); rec[8] = (uint8_t)hl; n = 9; rec[n++] = (uint8_t)L; memcpy(rec + n, key, L); n += L; uint8_t *hb = (uint8_t *)malloc(n); memcpy(hb, rec, n); r = tls_record_get_handshake_client_key_exchange_ecdhe(hb, &Q); free(hb); where = "tls12-client-key-exchange"; } else continue;
+			size_t kk[4] = { L, (size_t)pi, (size_t)fill, (size_t)shape }; vh_eval(vh_hash(kk, sizeof kk, 8123));
+			if (r == 1 && (sm2_z256_point_is_at_infinity(&Q) || sm2_z256_point_is_on_curve(&Q) != 1)) { char k2[160]; snprintf(k2, sizeof k2, "C12:%s:accepts-a-share-that-is-%s:%s", where, sm2_z256_point_is_at_infinity(&Q) ? "the-point-at-infinity" : "not-on-the-curve", nm); vh_viol(k2, "\"octets\":\"%s\"", vh_hex(key, L > 70 ? 70 : L)); } } }
+}
 /* octet strings of lengths {1,33,64,65,66} with every prefix byte */
 static void blk_octets(void) {
 	if (!vh_block_begin("octets-prefix")) return;
@@ -219,5 +233,5 @@ static void blk_sm9(void) {
 	  if (vh_shard == 0 && !vh_replay_block) vh_sample("{\"block\":\"sm9-points\",\"alias_cases_g1\":[%d,%d],\"alias_cases_g2\":[%d,%d,%d,%d]}", seen1[0], seen1[1], seen2[0], seen2[1], seen2[2], seen2[3]); BN_free(lim); }
 	BN_free(t);
 }
-static void body(void) { blk_points(); blk_octets(); blk_scalars(); blk_sm9(); }
+static void body(void) { blk_points(); blk_octets(); blk_tls_share_lengths(); blk_scalars(); blk_sm9(); }
 int main(int argc, char **argv) { vh_init(argc, argv); build_values(); build_containers(); vh_guarded("C12", body, 60); return vh_finish(); }
